@@ -151,8 +151,11 @@ def run(rep, tier, rng):
         rep.count("types_compiled_and_run" if c.status == "ok" else "types_compile_fail")
         desc = G.describe(s)
         if c.status == "compile_fail":
-            codes = sorted({str(d["code"]) for d in c.diags if d["level"] == "error"})
-            msg = next((d["message"] for d in c.diags if d["level"] == "error"), "")
+            # the control (same user-written pieces without derive_ex) compiled, so the failure is the macro's
+            d0 = next((d for d in c.diags if d["level"] == "error" and d["in_derive_ex"]), None) or \
+                next((d for d in c.diags if d["level"] == "error"), {"code": None, "message": "?"})
+            codes = [str(d0["code"])]
+            msg = d0["message"] or ""
             sig = f"C01|compile_fail|{'+'.join(codes)}|{msg[:50]}"
             sigs.setdefault(sig, []).append((s, f"accepted placement does not compile ({codes}: {msg[:160]}): {desc}", {"spec": s, "diags": c.diags[:5], "code": c.code}))
             continue
